@@ -13,7 +13,7 @@ HARNESSES = {
     'E-c06': dict(kind='enum', path='multi_record_log::verif_enum_c06::e_c06_histories', fn='e_c06_histories', bounded=True, bound='NATIVE EXHAUSTIVE ENUMERATION OF HISTORIES (cargo test, not symbolic): two queues, every history of at most 4 operations out of 11 (small / block-spilling append, truncate all / half, delete+recreate, reopen): 16104 histories on real 4-block WAL files; the C06 statement checked after every truncate / delete / open'),
     'E-hist': dict(kind='enum', tagged=True, path='multi_record_log::verif_enum_hist::e_hist_quick', fn='e_hist_quick', bounded=True, bound='NATIVE EXHAUSTIVE ENUMERATION OF HISTORIES (cargo test, not symbolic) against an executable reference model of the property texts, public API only: two queues; every history of 3 calls out of 23 (create / delete / append through both entry points with automatic, next, last, past, future position and 1-record, empty-payload, 2-record, empty and 70 000-byte batches / truncate far below, just below, inside, at the end of, beyond the retained records / reopen) and, both queues created, every history of 5 calls out of 11 (the block-spilling, truncating, deleting, restarting ones): 173 218 histories under Always(Flush), a third each also under DoNothing and Always(FlushAndFsync); after EVERY call: return value, every accessor, every kind of range bound, memory accounting, directory content, reported WAL bytes against an independent walk over the frame headers; clean restart and process-crash image of fully persisted states'),
     'E-hist-deep': dict(kind='enum', tagged=True, timeout=5400, path='multi_record_log::verif_enum_hist::e_hist_deep', fn='e_hist_deep', bounded=True, bound='as E-hist, every history of 4 calls out of 23 and every history of 6 calls out of 11: 2 051 402 histories'),
-    'E-dmg': dict(kind='enum', tagged=True, path='multi_record_log::verif_enum_dmg::e_dmg', fn='e_dmg', bounded=True, bound='NATIVE EXHAUSTIVE ENUMERATION OF SINGLE-SITE DAMAGE (cargo test, not symbolic), public API + raw edits of the WAL files: 42 layouts (an entry ending / starting with 0,1,6,7,8,9,40 bytes left in its block; 1-, 2-, 3-frame entries; a 4-record batch with a record boundary before / on / after a frame boundary; delete + re-create; entries spanning a file boundary; multi-frame entries whose last frame ends exactly at a block end; truncations); for EVERY frame: payload byte flipped (first / middle / last), checksum byte flipped, every other type byte in {0..5,255}, length +-1 / 0 / 65535 / to the block end / one beyond, block zeroed, torn tail at 4 cut points, frame overwritten by a copy of another frame of the same length: 8626 images opened; oracles C10 (no panic), C08 (only appended records), C12 (batch whole / none / minus a truncated head), C09 (confined damage costs one entry), C07+C01 (intact log reopens identical), C15 (while the layouts are built: reported wal_bytes_written == growth of the data in the files at every alignment)'),
+    'E-dmg': dict(kind='enum', tagged=True, path='multi_record_log::verif_enum_dmg::e_dmg', fn='e_dmg', bounded=True, bound='NATIVE EXHAUSTIVE ENUMERATION OF SINGLE-SITE DAMAGE (cargo test, not symbolic), public API + raw edits of the WAL files: 42 layouts (an entry ending / starting with 0,1,6,7,8,9,40 bytes left in its block; 1-, 2-, 3-frame entries; a 4-record batch with a record boundary before / on / after a frame boundary; delete + re-create; entries spanning a file boundary; multi-frame entries whose last frame ends exactly at a block end; truncations); for EVERY frame: payload byte flipped (first / middle / last), checksum byte flipped, every other type byte in {0..5,255}, length +-1 / 0 / 65535 / to the block end / one beyond, block zeroed, torn tail at 4 cut points, frame overwritten by a copy of another frame of the same length; whole-file damage (C10 only): each file removed / cut to 0, 100, one block + 100 bytes / extended by two blocks of 0xFF / duplicated under the next number, an empty file and a sub-directory with the next WAL names: 8992 images opened; oracles C10 (no panic), C08 (only appended records), C12 (batch whole / none / minus a truncated head), C09 (confined damage costs one entry), C07+C01 (intact log reopens identical), C15 (while the layouts are built: reported wal_bytes_written == growth of the data in the files at every alignment)'),
     'E-fault': dict(kind='enum', tagged=True, path='multi_record_log::verif_enum_fault::e_fault', fn='e_fault', bounded=True, bound='NATIVE FAULT INJECTION (cargo test, not symbolic), public API + the file system: one layout (one queue, 30 000-byte records until the log spans 4 WAL files); each WAL file in turn is replaced by a regular file that cannot be opened read+write (a copy of a program being executed: ETXTBSY, also for root); oracle C11: open returns Err(IoError) within 20 s; if the environment cannot produce the fault the harness fails without a verdict (tool condition)'),
     'E-gate': dict(kind='enum', path='rolling::directory::verif_enum::e_gate', fn='e_gate', bounded=True, bound='NATIVE EXHAUSTIVE ENUMERATION (cargo test, not symbolic): trackers of 1..=5 files (consecutive or gapped numbers), every subset pinned by a live clone: 124 cases'),
     'K-handles': dict(path='rolling::file_number::verif_kani::k_handles', fn='k_handles', bounded=True, bound='fixed shape: 3 appends over 2 files, truncate position symbolic in 0..=3'),
